@@ -568,7 +568,9 @@ fn boundary_keys<V: Fv>(seed: u64, thorough: bool, heavy: &mut Shards, light: &m
 /// (F, G) + k (f, g) for a sparse small k keeps f G - g F = q; k is searched so that the extreme coefficient lands on
 /// the edge and everything stays representable.  (Generated keys hit these edges for about one seed in several
 /// thousand.)  The key object is built with the crate's own `from_b0` (hook) and goes through to_bytes / from_bytes.
-fn edge_valid_keys<V: Fv>(seed: u64, heavy: &mut Shards, light: &mut Shards) {
+/// Valid key material (f, g, F, G) with a coefficient of F or of G exactly at +-127, the edge of what the secret-key format and
+/// the reference's import accept: (F, G) of a generated key shifted by small multiples of (f, g).
+pub fn edge_valid_b0s<V: Fv>(seed: u64) -> Vec<(String, [Vec<i16>; 4])> {
     let mut rng = rng_for(seed, &format!("edge-valid-keys-{}", V::N));
     let n = V::N;
     let (sk, _) = V::keygen(rng.gen());
@@ -586,6 +588,7 @@ fn edge_valid_keys<V: Fv>(seed: u64, heavy: &mut Shards, light: &mut Shards) {
         }
         out
     };
+    let mut outv = vec![];
     let targets: [(&str, bool, i32); 4] = [("G-max-127", true, 127), ("G-min-127", true, -127), ("F-max-127", false, 127), ("F-min-127", false, -127)];
     for (name, on_g, want) in targets {
         let mut found = None;
@@ -611,15 +614,21 @@ fn edge_valid_keys<V: Fv>(seed: u64, heavy: &mut Shards, light: &mut Shards) {
             let to16 = |v: &Vec<i32>| v.iter().map(|&x| x as i16).collect::<Vec<i16>>();
             let neg16 = |v: &Vec<i32>| v.iter().map(|&x| -(x as i16)).collect::<Vec<i16>>();
             let b = [to16(&g), neg16(&f), to16(&g2), neg16(&f2)];
-            let tag = format!("edge-valid-key-{}", name);
-            let (obs, _) = observe_with::<V>([7u8; 32], &tag, move || {
-                let sk = V::sk_from_b0(b);
-                let pk = V::pk_from_sk(&sk);
-                (sk, pk)
-            });
-            heavy.emit(obs.heavy);
-            light.emit(obs.light);
+            outv.push((format!("edge-valid-key-{}", name), b));
         }
+    }
+    outv
+}
+
+fn edge_valid_keys<V: Fv>(seed: u64, heavy: &mut Shards, light: &mut Shards) {
+    for (tag, b) in edge_valid_b0s::<V>(seed) {
+        let (obs, _) = observe_with::<V>([7u8; 32], &tag, move || {
+            let sk = V::sk_from_b0(b);
+            let pk = V::pk_from_sk(&sk);
+            (sk, pk)
+        });
+        heavy.emit(obs.heavy);
+        light.emit(obs.light);
     }
 }
 
@@ -697,4 +706,51 @@ pub fn fgseeds(args: &Args) {
     for h in handles {
         h.join().unwrap();
     }
+}
+
+/// Key pairs returned by the public `ntru_gen` when its FIRST candidate (scripted generator) is a real key's (f, g) with f edited so
+/// that one chosen NTT coefficient is zero (not invertible modulo q: must be discarded).  For drivers that need keys of that class
+/// (C01: signatures under whatever key is returned must verify).
+pub fn scripted_ntt_zero_keypairs<V: Fv>(seed: u64, slots: &[usize]) -> Vec<(String, V::Sk, V::Pk)> {
+    let mut rng = rng_for(seed, &format!("scripted-ntt-zero-{}", V::N));
+    let n = V::N;
+    let q = 12289i64;
+    let lim: i16 = if n == 512 { 31 } else { 15 };
+    let mut out = vec![];
+    // several base keys: the edited candidate must also get past the other tests of ntru_gen for the invertibility decision to matter
+    for base in 0..3u64 {
+    let (sk, _) = V::keygen(rng.gen());
+    let b0 = V::sk_b0(&sk);
+    let g: Vec<i16> = b0[0].clone();
+    let f: Vec<i16> = b0[1].iter().map(|x| -x).collect();
+    let fq: Vec<i16> = f.iter().map(|&x| ((x as i64 % q + q) % q) as i16).collect();
+    let v = verif::ntt_fft(&fq);
+    for &k in slots {
+        let mut best: Option<(usize, i64)> = None;
+        for j in 0..n {
+            let mut e = vec![0i16; n];
+            e[j] = 1;
+            let w = verif::ntt_fft(&e)[k] as i64;
+            let winv = verif::felt_inverse_or_zero(w as i16) as i64;
+            let mut d = (q - v[k] as i64) % q * winv % q;
+            if d > q / 2 {
+                d -= q;
+            }
+            let nv = f[j] as i64 + d;
+            if nv.abs() <= lim as i64 && d != 0 && best.map(|b| d.abs() < b.1.abs()).unwrap_or(true) {
+                best = Some((j, d));
+            }
+        }
+        if let Some((j, d)) = best {
+            let mut f2 = f.clone();
+            f2[j] = (f2[j] as i64 + d) as i16;
+            if let Some(maker) = scripted_keygen::<V>(&f2, &g, seed ^ k as u64 ^ (base << 20)) {
+                if let Outcome::Ret((sk, pk)) = guarded(maker) {
+                    out.push((format!("scripted-key-ntt-zero-slot-{}", k), sk, pk));
+                }
+            }
+        }
+    }
+    }
+    out
 }
